@@ -11,6 +11,7 @@ import (
 	"strings"
 
 	"github.com/scigolib/hdf5/internal/core"
+	"github.com/scigolib/hdf5/internal/writer"
 )
 
 // Subcommand c11: metadata codec round trips.
@@ -464,7 +465,165 @@ func init() {
 			return nil, fmt.Errorf("symbol table message shorter than 16 bytes")
 		},
 	}
+
+	// ---------------------------------------------------------------- compound datatype (v1 / v3 member lists)
+	c11Codecs["compound"] = c11Codec{
+		enc: func(val json.RawMessage, _ *core.Superblock) ([]byte, error) {
+			var v struct {
+				Version uint8  `json:"version"`
+				Size    uint32 `json:"size"`
+				Fields  []struct {
+					Name   string `json:"name"`
+					Offset uint32 `json:"offset"`
+					DT     c11DT  `json:"dt"`
+				} `json:"fields"`
+			}
+			if err := json.Unmarshal(val, &v); err != nil {
+				return nil, err
+			}
+			fields := make([]core.CompoundFieldDef, len(v.Fields))
+			for i, f := range v.Fields {
+				name, err := hex.DecodeString(f.Name)
+				if err != nil {
+					return nil, err
+				}
+				dt, err := f.DT.msg()
+				if err != nil {
+					return nil, err
+				}
+				fields[i] = core.CompoundFieldDef{Name: string(name), Offset: f.Offset, Type: dt}
+			}
+			if v.Version == 1 {
+				return core.EncodeCompoundDatatypeV1(v.Size, fields)
+			}
+			return core.EncodeCompoundDatatypeV3(v.Size, fields)
+		},
+		dec: func(data []byte, _ *core.Superblock) (interface{}, error) {
+			dt, err := core.ParseDatatypeMessage(data)
+			if err != nil {
+				return nil, err
+			}
+			ct, err := core.ParseCompoundType(dt)
+			if err != nil {
+				return nil, err
+			}
+			ms := make(vl, len(ct.Members))
+			for i, m := range ct.Members {
+				ms[i] = vl{vBytes([]byte(m.Name)), m.Offset, c11ValDatatype(m.Type)}
+			}
+			return vl{dt.Version, dt.ClassBitField, ct.Size, ms}, nil
+		},
+	}
+
+	// ---------------------------------------------------------------- array / enum datatype messages
+	// (the library has no structural decoder for their properties: ParseDatatypeMessage returns them raw)
+	c11Codecs["array"] = c11Codec{
+		enc: func(val json.RawMessage, _ *core.Superblock) ([]byte, error) {
+			var v struct {
+				Base string   `json:"base"`
+				Dims []uint64 `json:"dims"`
+				Size uint32   `json:"size"`
+			}
+			if err := json.Unmarshal(val, &v); err != nil {
+				return nil, err
+			}
+			base, err := hex.DecodeString(v.Base)
+			if err != nil {
+				return nil, err
+			}
+			return core.EncodeArrayDatatypeMessage(base, v.Dims, v.Size)
+		},
+		dec: c11Codecs["datatype"].dec,
+	}
+	c11Codecs["enum"] = c11Codec{
+		enc: func(val json.RawMessage, _ *core.Superblock) ([]byte, error) {
+			var v struct {
+				Base   string   `json:"base"`
+				Names  []string `json:"names"`
+				Values string   `json:"values"`
+				Size   uint32   `json:"size"`
+			}
+			if err := json.Unmarshal(val, &v); err != nil {
+				return nil, err
+			}
+			base, err := hex.DecodeString(v.Base)
+			if err != nil {
+				return nil, err
+			}
+			values, err := hex.DecodeString(v.Values)
+			if err != nil {
+				return nil, err
+			}
+			names := make([]string, len(v.Names))
+			for i, n := range v.Names {
+				b, err := hex.DecodeString(n)
+				if err != nil {
+					return nil, err
+				}
+				names[i] = string(b)
+			}
+			return core.EncodeEnumDatatypeMessage(base, names, values, v.Size)
+		},
+		dec: c11Codecs["datatype"].dec,
+	}
+
+	// ---------------------------------------------------------------- filter pipeline message
+	c11Codecs["filterpipe"] = c11Codec{
+		enc: func(val json.RawMessage, _ *core.Superblock) ([]byte, error) {
+			var v []struct {
+				ID    uint16   `json:"id"`
+				Name  string   `json:"name"`
+				Flags uint16   `json:"flags"`
+				CD    []uint32 `json:"cd"`
+			}
+			if err := json.Unmarshal(val, &v); err != nil {
+				return nil, err
+			}
+			fp := writer.NewFilterPipeline()
+			for _, f := range v {
+				name, err := hex.DecodeString(f.Name)
+				if err != nil {
+					return nil, err
+				}
+				fp.AddFilter(&c11Filter{id: writer.FilterID(f.ID), name: string(name), flags: f.Flags, cd: f.CD})
+			}
+			return fp.EncodePipelineMessage()
+		},
+		dec: func(data []byte, _ *core.Superblock) (interface{}, error) {
+			p, err := core.ParseFilterPipelineMessage(data)
+			if err != nil {
+				return nil, err
+			}
+			fs := make(vl, len(p.Filters))
+			for i, f := range p.Filters {
+				var cd interface{} = vl{}
+				if f.ClientData != nil {
+					c := make(vl, len(f.ClientData))
+					for j, x := range f.ClientData {
+						c[j] = x
+					}
+					cd = vl{c}
+				}
+				fs[i] = vl{uint16(f.ID), f.NameLength, f.Flags, f.NumClientData, vBytes([]byte(f.Name)), cd}
+			}
+			return vl{p.Version, p.NumFilters, fs}, nil
+		},
+	}
 }
+
+// c11Filter is a writer.Filter with freely chosen message fields (the data transforms are not used here).
+type c11Filter struct {
+	id    writer.FilterID
+	name  string
+	flags uint16
+	cd    []uint32
+}
+
+func (f *c11Filter) ID() writer.FilterID                { return f.id }
+func (f *c11Filter) Name() string                       { return f.name }
+func (f *c11Filter) Apply(d []byte) ([]byte, error)     { return d, nil }
+func (f *c11Filter) Remove(d []byte) ([]byte, error)    { return d, nil }
+func (f *c11Filter) Encode() (uint16, []uint32)         { return f.flags, f.cd }
 
 // c11Mem is an in-memory io.WriterAt (zero-extends like a file).
 type c11Mem struct{ b []byte }
